@@ -21,6 +21,7 @@ EXPLANATION = (
     "and only through difference(&exceptions); Engine::url_cosmetic_resources takes the flag from "
     "blocker.check_generic_hide on a request whose source is the page URL itself."
     ' Later additions: rule hostnames are hashed lower-cased; generichide is false for unsupported schemes; the per-label loops of hostname_cosmetic_resources are never left by a `break` and use no truncating adapter; the wire slots of the per-host stores are positional and written unconditionally (C08.2).'
+    ' Round 6: every return of get_hashes_from_labels pushes the whole-host hash except the one under end == 0; no update of a host-specific result set is control-dependent on `generichide`; a scriptlet exception shrinks script_injections by one remove(<its text>) / one clear() only; the cosmetic parser receives the trimmed line (C11.2 borrowed).'
 )
 NOT_DECIDED = "The label / public-suffix arithmetic (which suffixes a hostname produces) — runtime values."
 
@@ -45,7 +46,13 @@ def check(run):
         run.guard("C16.4.storing", cfg + "/hidden-generic", lambda: rule_hidden_generic_table(run, F, cfg))
         run.guard("C16.1.hash-agreement", cfg + "/request-args", lambda: rule_request_hash_args(run, F, cfg))
         run.guard("C16.1.hash-agreement", cfg + "/key-spaces", lambda: rule_key_spaces(run, F, cfg))
+        run.guard("C16.1.hash-agreement", cfg + "/walk-total", lambda: rule_label_walk_total(run, F, cfg))
+        run.guard("C16.5.generichide", cfg + "/scope", lambda: rule_generichide_scope(run, F, cfg))
         run.guard("C16.8.independent-injections", cfg, lambda: rule_independent_injections(run, F, cfg))
+        from . import C11 as _C11
+        bst = run.borrow("C11", why="the selector / scriptlet text of a cosmetic rule is everything after the separator: the "
+                                    "list parser may not shorten the line before the cosmetic parser sees it")
+        run.guard("C16.via.C11.2.line-independence", cfg + "/standard-text", lambda: _C11.rule_standard_text(bst, F, cfg))
         run.guard("C16.2.bin-pairing", cfg + "/effects", lambda: rule_effects(run, F, cfg))
         run.guard("C16.5.generichide", cfg, lambda: rule_generichide(run, F, cfg))
         b = run.borrow("C08", why="per-hostname cosmetic rules and exceptions must survive serialize/deserialize")
@@ -380,6 +387,31 @@ def rule_blanket_flag(run, F, cfg):
     false and is raised only there (if it started true, no scriptlet exception would ever be applied). The flag
     is found by its role: the boolean local tested on the way to the removal of a named exception."""
     f = F.fn("cosmetic_filter_cache::CosmeticFilterCache::hostname_cosmetic_resources")
+    # a named scriptlet exception takes out the injection with exactly its text, a blanket one everything: the only
+    # calls that shrink script_injections are one remove(<the exception's text>) and one clear(), and whether the
+    # remove happens does not depend on what the text looks like
+    H = f.name
+    shr = []
+    for g in [f] + [x for n_, x in F.fns.items() if n_.startswith(H + "::")]:
+        for b, t in g.calls(r"^std::collections::HashMap::(remove|remove_entry|retain|clear|drain|extract_if)$"):
+            if re.search(r"script_injections$", g.vexpr_operand(t["args"][0])):
+                conds = dominating_conditions(g, b, render=g.vexpr_operand) if g is f else {}
+                shr.append((strip_generics(t["callee"]).split("::")[-1], [g.vexpr_operand(a) for a in t["args"][1:]], conds, g.loc(b)))
+    kinds = sorted(k for k, a, c, l in shr)
+    exact = [(a, c) for k, a, c, l in shr if k == "remove"]
+    ok_x = kinds == ["clear", "remove"] and bool(exact) and \
+        bool(re.match(r"^(std::string::String::as_str\(|<std::string::String as std::ops::Deref>::deref\()?\$\w+\)?$", exact[0][0][0]))
+    odd = [k for a, c in exact for k in c
+           if not (re.match(r"^discr\(<std::slice::Iter<.*> as std::iter::Iterator>::next\(", k)
+                   or re.match(r"^discr\(cosmetic_filter_cache::HostnameFilterBin::get\(", k)
+                   or re.match(r"^std::string::String::is_empty\(|^core::str::is_empty\(", k) or re.match(r"^\$\w+$", k))]
+    run.ob("C16.6.blanket-script-exception", "exception-removes-the-identical-injection", ok_x and not odd,
+           f"script_injections is shrunk by exactly one remove(<text of the exception>) and one clear() (found {kinds}, key "
+           f"{exact[0][0] if exact else None}); the remove is conditional only on the bin lookup, the walk over its entries, "
+           f"the empty-name test and the blanket flag (other conditions: {odd[:2]})",
+           site=shr[0][3] if shr else f.loc(0), config=cfg,
+           detail="a retain(starts_with ..) / a test on the shape of the exception text removes injections that merely "
+                  "share a prefix with it, or keeps the identical one")
     rm = [(b, dominating_conditions(f, b, render=f.vexpr_operand)) for b, t in f.calls(r"HashMap::remove$")]
     flags = sorted({k for b, c in rm for k, v in c.items() if re.match(r"^\$\w+$", k)
                     and str(f.locals[[l for l, n in f.varnames.items() if "$" + n == k][0]].get("ty") if isinstance(f.locals[0], dict) else "bool") == "bool"}) \
@@ -534,6 +566,58 @@ def rule_request_hash_args(run, F, cfg):
            f"the second argument is the slice of the hostname given by get_host_domain(hostname) ({hc})", config=cfg)
 
 
+def rule_generichide_scope(run, F, cfg):
+    """`generichide` switches the generic selectors off and nothing else: no insertion into / removal from the sets of
+    host-specific results (hide selectors, exceptions, procedural actions, scriptlets) is decided by it."""
+    H = CC + "CosmeticFilterCache::hostname_cosmetic_resources"
+    fs = [f for n, f in F.fns.items() if n == H or n.startswith(H + "::")]
+    n = 0
+    bad = []
+    for f in fs:
+        for b, t in f.calls(r"^std::collections::(HashSet|HashMap)::(insert|remove|clear|entry)$|Extend<.*>>::extend$"):
+            tgt = f.vexpr_operand(t["args"][0])
+            if not re.search(r"(exceptions|specific_hide_selectors|procedural_actions|script_injections|dest_set)$", tgt):
+                continue
+            n += 1
+            gh = [e for e in dominating_conditions(f, b) if "generichide" in e]
+            if gh:
+                bad.append((tgt.split(":")[-1].lstrip("$"), f.loc(b)))
+    run.ob("C16.5.generichide", "flag-gates-generic-selectors-only", n >= 6 and not bad,
+           f"none of the {n} updates of the host-specific result sets (specific hides, exceptions, procedural actions, "
+           f"scriptlets) in hostname_cosmetic_resources is conditional on `generichide`; conditional ones: {bad}",
+           site=bad[0][1] if bad else "", config=cfg,
+           detail="the exceptions of a host are reported also on a generichide page (they are cached by the caller and "
+                  "handed back to hidden_class_id_selectors)")
+
+
+def rule_label_walk_total(run, F, cfg):
+    """get_hashes_from_labels: whatever the host looks like, the walk ends by hashing the whole name hostname[..end];
+    the only input for which it returns without doing so is the empty name (end == 0). (Length / shape shortcuts in
+    front of the walk make every rule scoped to the host, and all its exceptions, disappear for the hosts they
+    misjudge.)"""
+    from analysis.pathinterp import enumerate_paths as _ep, path_calls as _pc
+    g = F.fn("filters::cosmetic::get_hashes_from_labels")
+    run.touched(g)
+    p1, p2 = g.local_name(1), g.local_name(2)
+    whole = f"utils::fast_hash(core::str::traits::index({p1}, std::ops::RangeTo::RangeTo{{end: {p2}}}))"
+    n = 0
+    bad = []
+    for p in _ep(g):
+        if p.end != "return":
+            continue
+        n += 1
+        pushed = [g.expr_operand(t["args"][1]) for b, t in _pc(g, p) if strip_generics(t["callee"]) == "std::vec::Vec::push"]
+        if whole in pushed:
+            continue
+        if [(e, v) for e, v in p.conds] == [(f"({p2} Eq 0)", 1)]:
+            continue
+        bad.append([f"{e[-60:]}={v}" for e, v in p.conds][:4])
+    run.ob("C16.1.hash-agreement", "whole-host-always-hashed", n >= 2 and not bad,
+           f"each of the {n} ways out of get_hashes_from_labels pushes fast_hash(hostname[..end]) -- the hash a rule "
+           f"written for exactly this host is stored under -- except the one taken for end == 0; others: {bad[:2]}",
+           site=g.loc(0), config=cfg)
+
+
 def rule_independent_injections(run, F, cfg):
     """get_scriptlet_resources resolves each `+js(...)` on its own: one that cannot be resolved (unknown name,
     insufficient permission, ...) is skipped and does not affect the others"""
@@ -578,6 +662,14 @@ def rule_effects(run, F, cfg):
             # the element inserted may be cloned first
             if not ok and nme == "populate_set":
                 ok = len(fe) == 1 and any("HashSet::insert(up:dest_set" in x for x in body)
+            # ... or the whole bucket handed to Extend::extend (every element, cloned)
+            if not ok and nme == "populate_set":
+                p3 = h.local_name(3)
+                ext = [h.expr_call(t) for b, t in h.calls(r"HashSet<.*> as std::iter::Extend<.*>>::extend$")]
+                ok = len(ext) == 1 and bool(re.match(
+                    r"^<std::collections::HashSet<.*> as std::iter::Extend<.*>>::extend\(" + re.escape(p3) +
+                    r", (std::iter::Iterator::(cloned|copied)\()?core::slice::iter\(cosmetic_filter_cache::HostnameFilterBin::get\(" +
+                    re.escape(p2) + r", [^()]*\)@Some\.0\)\)?\)$", ext[0]))
         eff[nme] = ok
     run.ob("C16.2.bin-pairing", "helpers-apply-to-every-element", all(eff.values()) and len(eff) == 2,
            f"populate_set inserts, and prune_set removes, every element of source_bin.get(hash) into / from dest_set ({eff})",
@@ -590,6 +682,11 @@ def rule_effects(run, F, cfg):
                 merge.append(re.sub(r"arg:\w+\)$", "arg:sel)", c.expr_call(t)))
     okm = "std::collections::HashSet::insert(up:hide_selectors, arg:sel)" in merge and \
         any("for_each" in f.expr_call(t) and "specific_hide_selectors" in f.vexpr_call(t) for b, t in f.calls(r"Iterator::for_each$"))
+    if not okm:
+        # the same merge as `hide_selectors.extend(specific_hide_selectors)`
+        okm = any(re.match(r"^<std::collections::HashSet<.*> as std::iter::Extend<.*>>::extend\(\$hide_selectors, "
+                           r"\$specific_hide_selectors\)$", f.vexpr_call(t))
+                  for b, t in f.calls(r"HashSet<.*> as std::iter::Extend<.*>>::extend$"))
     run.ob("C16.2.bin-pairing", "specific-selectors-merged", okm,
            "when generichide is off, every specific hide selector is inserted into the returned hide_selectors "
            f"(for_each over specific_hide_selectors) ({merge})", config=cfg)
